@@ -28,7 +28,7 @@ CHECKS = {
     "C03": dict(
         level="model_checking",
         rule="parent scope(2) x declared child kinds(3 sets per scope) x generateSelector(2) x 2 (thorough: 3) slots each ranging over role(9 composite / 8 decorator) x namespace(2) x kind(declared + one undeclared); "
-             "one real sync per case; non-trivial = at least one object present in the cluster; every fifth non-trivial case is also run after a second controller on the same parent and child resources was started and stopped again (the informers this controller lists from must survive); role 'orphan in the cache, adopted by another parent on the server' (the adoption is refused; the object must never be shown to the hook); selector kinds: explicit matchLabels, generated, and negative-only (tier NotIn [canary]: selects objects without labels); decorator: a second decorated parent kind with a namesake parent whose attachments are its own",
+             "one real sync per case; non-trivial = at least one object present in the cluster; every fifth non-trivial case is also run after a second controller on the same parent and child resources was started and stopped again (the informers this controller lists from must survive); role 'orphan in the cache, adopted by another parent on the server' (the adoption is refused; the object must never be shown to the hook); selector kinds: explicit matchLabels, generated, and negative-only (tier NotIn [canary]: selects objects without labels); decorator: a second decorated parent kind with a namesake parent whose attachments are its own; decorator roles with the controller reference not last / an explicit non-controller owner first",
         units=[
             dict(pkg=COMPOSITE, test="TestVerifC03", shards=dict(quick=8, thorough=16), budget=dict(quick=300, thorough=3000)),
             dict(pkg=DECORATOR, test="TestVerifC03", shards=dict(quick=4, thorough=16), budget=dict(quick=300, thorough=3000)),
@@ -57,7 +57,7 @@ CHECKS = {
     "C11": dict(
         level="model_checking",
         rule="hook status(6) x live-vs-cached parent(5: same, spec edited, labels edited, recreated with new UID, gone) x existing status(3) x real conflicts caused between GET and PUT(0,1,2,4) x injected fault on the status path(5) x child reconciliation ok/fails; "
-             "plus the finalize path (finalized x live edited x foreign finalizer); every case distinct, one real sync each + the live status edited behind the cache (cached status already equal to the desired one); discovery lists a scale subresource after status for the parent kind; plus rolling parents: hook status shape(9: none, flat, nested, other conditions, an own Updated condition first / in the middle / alone, empty list) x rollout phase(4: on latest, progressing, waiting, completed) x method(2) x generateSelector(2), judged sync + repeat: stored status = hook status of the latest revision with only the Updated condition replaced/appended + observedGeneration, no write when nothing changes; plus a parent kind for which the server keeps no metadata.generation (observedGeneration 0)",
+             "plus the finalize path (finalized x live edited x foreign finalizer); every case distinct, one real sync each + the live status edited behind the cache (cached status already equal to the desired one); discovery lists a scale subresource after status for the parent kind; plus rolling parents: hook status shape(9: none, flat, nested, other conditions, an own Updated condition first / in the middle / alone, empty list) x rollout phase(4: on latest, progressing, waiting, completed) x method(2) x generateSelector(2), judged sync + repeat: stored status = hook status of the latest revision with only the Updated condition replaced/appended + observedGeneration, no write when nothing changes; plus a parent kind for which the server keeps no metadata.generation (observedGeneration 0); the generation-less parent kind is listed in discovery with its status subresource BEFORE the resource",
         units=[
             dict(pkg=COMPOSITE, test="TestVerifC11", shards=dict(quick=8, thorough=16), budget=dict(quick=300, thorough=900)),
             dict(pkg=COMPOSITE, test="TestVerifC11Roll", shards=dict(quick=2, thorough=2), budget=dict(quick=300, thorough=600)),
@@ -67,7 +67,7 @@ CHECKS = {
     "C13": dict(
         level="model_checking",
         rule="grammar: valid response with every node replaced by each of 12 JSON values (missing, null, true, 0, -1, 1e400, 2^63, string, [], [null], {}, {x:null}); singles exhaustively (thorough: all pairs for the base configurations) + 17 raw bodies + 6 non-200 statuses, "
-             "x mode(non-rolling, rolling, rolling with two live revisions, finalizing) x generateSelector x strict/loose, for composite sync/finalize, customize and decorator sync/finalize responses; every rejected or failing case is followed by the work-queue retry (same parent, same answer: no panic, rejected again, no writes) and, for customize answers, by a related-object event; every case distinct; mode 4: a rollout that waits for a missing child of the latest revision while another child is still on the old one; mode 5: rollout under way; plus an answer listing children of one kind under two versions (12 repetitions per configuration: bucket order is map order)",
+             "x mode(non-rolling, rolling, rolling with two live revisions, finalizing) x generateSelector x strict/loose, for composite sync/finalize, customize and decorator sync/finalize responses; every rejected or failing case is followed by the work-queue retry (same parent, same answer: no panic, rejected again, no writes) and, for customize answers, by a related-object event; every case distinct; mode 4: a rollout that waits for a missing child of the latest revision while another child is still on the old one; mode 5: rollout under way; plus an answer listing children of one kind under two versions (12 repetitions per configuration: bucket order is map order); value alphabet includes [null,null]",
         units=[
             dict(pkg=COMPOSITE, test="TestVerifC13", shards=dict(quick=12, thorough=16), budget=dict(quick=600, thorough=3000)),
             dict(pkg=DECORATOR, test="TestVerifC13", shards=dict(quick=4, thorough=16), budget=dict(quick=600, thorough=3000)),
@@ -90,7 +90,7 @@ CHECKS = {
         level="model_checking",
         rule="parent scope(2) x all rule sets of 1 and 2 rules over resource(2: namespaced, cluster-scoped) x selection(10: none, empty selector, matchLabels, matchExpressions, namespace own/foreign, names, namespace+names, two invalid mixes) = 840 sets, against 7 related objects across two namespaces and cluster scope, each also with a second hosted controller (own customize hook, other rules) looking at the same parent first, for composite and decorator controllers; "
              "a related object that changes while no customize answer is remembered for the parent's new generation must still wake the parent; "
-             "each case: sync, cached re-sync, a change of every related object, a parent generation change, finalize; the wake-up agreement is re-checked with two more parents around for which the customize hook fails",
+             "each case: sync, cached re-sync, a change of every related object, a parent generation change, finalize; the wake-up agreement is re-checked with two more parents around for which the customize hook fails; the two names of the names rule are listed in descending order (composite; ascending in the decorator unit)",
         units=[
             dict(pkg=COMPOSITE, test="TestVerifC15", shards=dict(quick=4, thorough=8), budget=dict(quick=300, thorough=600)),
             dict(pkg=DECORATOR, test="TestVerifC15", shards=dict(quick=4, thorough=8), budget=dict(quick=300, thorough=600)),
@@ -123,7 +123,7 @@ CHECKS = {
     "C01": dict(
         level="model_checking",
         rule="configuration (parent scope x 1-2 child kinds x 6 update methods x generateSelector x finalize hook x dynamic/server-side apply) x hook program (static 0-2, fromSpec, ordered StatefulSet-like, echoStatus) x initial cluster contents (two desired-name slots over {absent, owned, owned drifted, owned+foreign field, matching orphan, drifted orphan} x stale owned child x foreign-owned look-alike x same name in the other namespace; cluster-scoped parents: every desired child also has a same-named twin in a second namespace; some desired children carry annotations of the hook's own, omit their namespace, or echo the generated selector label) "
-             "x stale-cache deviations (thorough: partial delivery in the first 0-2 rounds); each scenario is driven `sync; deliver; gc` to quiescence within N rounds, then one more sync; quick tier = a covering sub-product; plus an end-to-end explicit-state search over CHANGES of the desired state through the real sync (parent spec = value x replicas(1-2) x a child map {a,b}/{a}/{}/absent x a list-map two/one/no items x desired child with/without a status key [x hook annotation x extra label in the thorough tier]; events: every single-field change from every reachable spec - alone, together with a sync hook that answers 500 once, and together with one refused child write -, child deleted / orphaned / drifted; hook style: builds children from scratch / returns the observed annotations / returns the observed metadata and status; InPlace, Recreate, OnDelete under dynamic apply and server-side apply, composite children and decorator attachments): after every event the controller is synced to quiescence under a fair environment and the store must equal the store of a fresh world started directly with the same spec (differential oracle); the search closes (fixpoint), so change sequences of any length are covered; plus rollout histories with the replica count outside the revisioned fields (revisionHistory.fieldPaths=[spec.template], hook listing the highest ordinal first; RollingRecreate / RollingInPlace; events sync, template / replicas / common change, child deleted; depth 6 (8), at most 2 (3) changes): from every reached state a fair continuation ends in the cluster a fresh start with the same spec converges to; every change of the history search also with one child write refused once with 422; a refused write or a failed hook must make the sync report an error",
+             "x stale-cache deviations (thorough: partial delivery in the first 0-2 rounds); each scenario is driven `sync; deliver; gc` to quiescence within N rounds, then one more sync; quick tier = a covering sub-product; plus an end-to-end explicit-state search over CHANGES of the desired state through the real sync (parent spec = value x replicas(1-2) x a child map {a,b}/{a}/{}/absent x a list-map two/one/no items x desired child with/without a status key [x hook annotation x extra label in the thorough tier]; events: every single-field change from every reachable spec - alone, together with a sync hook that answers 500 once, and together with one refused child write -, child deleted / orphaned / drifted; hook style: builds children from scratch / returns the observed annotations / returns the observed metadata and status; InPlace, Recreate, OnDelete under dynamic apply and server-side apply, composite children and decorator attachments): after every event the controller is synced to quiescence under a fair environment and the store must equal the store of a fresh world started directly with the same spec (differential oracle); the search closes (fixpoint), so change sequences of any length are covered; plus rollout histories with the replica count outside the revisioned fields (revisionHistory.fieldPaths=[spec.template], hook listing the highest ordinal first; RollingRecreate / RollingInPlace; events sync, template / replicas / common change, child deleted; depth 6 (8), at most 2 (3) changes): from every reached state a fair continuation ends in the cluster a fresh start with the same spec converges to; every change of the history search also with one child write refused once with 422; a refused write or a failed hook must make the sync report an error; the second child kind of the two-kind configurations is in the same group and version as the first and has a child of the same name",
         units=[
             dict(pkg=COMPOSITE, test="TestVerifC01", shards=dict(quick=12, thorough=16), budget=dict(quick=600, thorough=3300)),
             dict(pkg=DECORATOR, test="TestVerifC01", shards=dict(quick=4, thorough=16), budget=dict(quick=600, thorough=3300)),
@@ -196,7 +196,7 @@ CHECKS = {
         level="model_checking",
         rule="(a) rollout histories (bring-up, two template edits -> three live revisions, delete -> finalize) x revision field paths (default, spec.template, spec.template.ver) x customize x finalize x dynamic/server-side apply/dynamic with log verbosity 10 (code behind V(n).Enabled() guards) x a 500 injected at every single request position of the history: cache fingerprint (pointer + content) around every sync and 'the hook was sent what the server delivered'; "
              "(a2) the decorator counterpart: decorate, edit, unselect/delete with finalize x customize x InPlace/Recreate x log verbosity x a 500 at every request position; (b) two workers syncing distinct rolling parents that share every informer, the customize cache and the SSA memo: all interleavings at API-request/hook granularity with <= 2 (thorough 3) preemptions, outcome (store + hook-request multiset) must equal a serial order's; "
-             "(c) supplementary, outside the family: the same bodies free-running under the race detector (60 / 300 repetitions x 4 rounds x 3 concurrent syncs with parallel per-revision hook calls); every request of the history (by request identity) also fails with 429, server timeout, transport timeout (thorough: 403)",
+             "(c) supplementary, outside the family: the same bodies free-running under the race detector (60 / 300 repetitions x 4 rounds x 3 concurrent syncs with parallel per-revision hook calls); every request of the history (by request identity) also fails with 429, server timeout, transport timeout (thorough: 403); the race pass ends with a round in which every per-revision hook call fails",
         units=[
             dict(pkg=COMPOSITE, test="TestVerifC17", shards=dict(quick=8, thorough=16), budget=dict(quick=600, thorough=1800)),
             dict(pkg=DECORATOR, test="TestVerifC17", shards=dict(quick=2, thorough=4), budget=dict(quick=600, thorough=1800)),
